@@ -82,16 +82,56 @@ fn distinct(n: usize, k: usize, rng: &mut SplitMix64) -> Vec<usize>
     all
 }
 
-pub fn gen_gate(nq: usize, cfg: &GenCfg, rng: &mut SplitMix64) -> (String, Vec<usize>)
+/// Operations of a Clifford composite on `nb` qubits: sub-gates on 1..3 of them with the operands in EVERY order (adjacent
+/// descending `CX 1 0`, `CY 2 1`, rotated three-operand lists ...): `<k> { <term> <m> <bit>*m }*k`
+fn gen_clifford_ops(nb: usize, depth: usize, rng: &mut SplitMix64) -> String
 {
-    let k = if nq >= 3 && !cfg.clifford && rng.below(6) == 0 { 3 } else if nq >= 2 && rng.below(3) == 0 { 2 } else { 1 };
-    let bits = distinct(nq, k, rng);
-    let term = if cfg.clifford
+    let k = 1 + rng.below(4) as usize;
+    let mut s = format!("{}", k);
+    for _ in 0..k
+    {
+        let m = if nb >= 3 && rng.below(5) == 0 { 3 } else if nb >= 2 && rng.below(2) == 0 { 2 } else { 1 };
+        let bits = distinct(nb, m, rng);
+        s += &format!(" {} {} {}", gen_clifford_term(m, depth, rng), m, join(&bits));
+    }
+    s
+}
+
+/// A Clifford gate term on exactly `k` qubits (1..3): a primitive, or - nested up to `depth` - a Kron / Composite / Loop of
+/// Clifford sub-gates on every operand order, so that the stabilizer backend conjugates through the combinators.
+pub fn gen_clifford_term(k: usize, depth: usize, rng: &mut SplitMix64) -> String
+{
+    if depth == 0 || (k <= 2 && rng.below(3) == 0)
     {
         match k
         {
-            1 => rng.pick(&CLIFF1).to_string(),
-            _ => if cfg.allow_combinators && rng.below(4) == 0 { format!("Kron {} {}", rng.pick(&CLIFF1), rng.pick(&CLIFF1)) } else { rng.pick(&CLIFF2).to_string() },
+            1 => return rng.pick(&CLIFF1).to_string(),
+            2 => return rng.pick(&["CX", "CX", "CY", "CY", "CZ", "Swap"]).to_string(),
+            _ => {}
+        }
+    }
+    let d = depth.saturating_sub(1);
+    match rng.below(4)
+    {
+        0 if k >= 2 => { let k0 = 1 + rng.below(k as u64 - 1) as usize; format!("Kron {} {}", gen_clifford_term(k0, d, rng), gen_clifford_term(k - k0, d, rng)) },
+        1 => format!("Loop l{} {} b{} {} {}", rng.below(100), rng.below(4), rng.below(100), k, gen_clifford_ops(k, d, rng)),
+        _ => format!("Comp g{} {} {}", rng.below(100), k, gen_clifford_ops(k, d, rng)),
+    }
+}
+
+pub fn gen_gate(nq: usize, cfg: &GenCfg, rng: &mut SplitMix64) -> (String, Vec<usize>)
+{
+    let k = if nq >= 3 && (!cfg.clifford || cfg.allow_combinators) && rng.below(6) == 0 { 3 } else if nq >= 2 && rng.below(3) == 0 { 2 } else { 1 };
+    let bits = distinct(nq, k, rng);
+    let term = if cfg.clifford
+    {
+        if cfg.allow_combinators && (k == 3 || rng.below(4) == 0) { gen_clifford_term(k, 2, rng) } else
+        {
+            match k
+            {
+                1 => rng.pick(&CLIFF1).to_string(),
+                _ => rng.pick(&CLIFF2).to_string(),
+            }
         }
     }
     else if cfg.allow_combinators && rng.below(5) == 0 { gate::gen_term(k, 2, rng) } else { gate::gen_prim(k, rng) };
